@@ -70,6 +70,7 @@ class Gen:
         # its degree analysis (soundly) answers None and its power rule takes the general a**b route: behaviour the Coq syntax
         # (Const Q) does not distinguish, so only the checks that allow for it switch this on (C04)
         self.numpy_scalars = False
+        self.numpy_coefs = False          # NumPy scalar types as coefficients / offsets (safe for the linear and value channels)
 
     def hit(self, k):
         self.hits[k] = self.hits.get(k, 0) + 1
@@ -89,9 +90,12 @@ class Gen:
         if k < 0.80:
             self.hit("coef:int64")
             return np.array(ints, dtype=np.int64)
-        if k < 0.86:
+        if k < 0.84:
             self.hit("coef:int32")
             return np.array(ints, dtype=np.int32)
+        if k < 0.88:
+            self.hit("coef:uint8")
+            return np.array([abs(t) + (1 if j % 2 else 0) for j, t in enumerate(ints)], dtype=self.rng.choice([np.uint8, np.uint16]))
         if k < 0.92:
             self.hit("coef:reversed-view")
             return np.array([float(t) + 0.5 for t in ints])[::-1]
@@ -419,7 +423,16 @@ class Gen:
                ("neg", lambda f: -f), ("f**2", lambda f: f ** 2), ("f**3", lambda f: f ** 3), ("f**1", lambda f: f ** 1),
                ("f+v", lambda f: f + leaf()), ("v-f", lambda f: leaf() - f), ("f*v", lambda f: f * leaf()), ("v*f", lambda f: leaf() * f),
                ("C-f", lambda f: Constant(c()) - f), ("C*f", lambda f: Constant(cn()) * f), ("f/C", lambda f: f / Constant(cn())),
-               ("f/(C/c)", lambda f: f / (Constant(4.0) / 2)), ("f*(C+c)", lambda f: f * (Constant(cn()) + 1))]
+               ("f/(C/c)", lambda f: f / (Constant(4.0) / 2)), ("f*(C+c)", lambda f: f * (Constant(cn()) + 1)),
+               # physical-constant magnitudes: tiny and huge literals are coefficients like any other
+               ("tiny*f", lambda f: 1.380649e-23 * f), ("f*tiny", lambda f: f * 6.62607015e-34), ("huge*f", lambda f: 6.02214076e23 * f),
+               ("f+tiny", lambda f: f + 1e-15), ("f-1", lambda f: f - (1.0 + 1e-13))]
+        if self.numpy_coefs:
+            # NumPy scalar types as COEFFICIENTS / offsets (not exponents): stored as 0-d array Constants, read as scalars everywhere
+            # (integer and float64 types only: a float32 coefficient legitimately drags the arithmetic down to single precision)
+            ctx += [("f*i64", lambda f: f * np.int64(3)), ("i64*f", lambda f: np.int64(-2) * f), ("f*f64", lambda f: f * np.float64(0.5)),
+                    ("f/i64", lambda f: f / np.int64(2)), ("f+i32", lambda f: f + np.int32(3)), ("f-arr0", lambda f: f - np.array(2.5)),
+                    ("u8*f", lambda f: np.uint8(3) * f), ("f*i32", lambda f: f * np.int32(-4)), ("f*arr0i", lambda f: f * np.array(3))]
         if self.numpy_scalars:
             ctx += [("f**i64(2)", lambda f: f ** np.int64(2)), ("f**arr(2)", lambda f: f ** np.array(2)), ("f**f32(2)", lambda f: f ** np.float32(2.0)),
                     ("i64*f", lambda f: np.int64(3) * f), ("f+f32", lambda f: f + np.float32(1.5)), ("f**i64(1)", lambda f: f ** np.int64(1)),
